@@ -247,6 +247,8 @@ def _selection(draw, fft, tier):
     dup = _p(draw, 0.15)
     idx = draw(st.lists(st.integers(0, fft - 1), min_size=1,
                         max_size=fft + (3 if dup else 0), unique=not dup))
+    if dup:     # make sure at least one carrier really is repeated
+        idx = idx + [idx[draw(st.integers(0, len(idx) - 1))]]
     return dict(kind="index", idx=idx,
                 as_=draw(st.sampled_from(["list", "array"])))
 
